@@ -6,12 +6,13 @@ META = {
     "engine": "LexProto+BuildMonitor",
     "technique": "TLA+ spec of the lexer-goroutine/parser token protocol model-checked by TLC for all token counts, abort points and interleavings (deadlock freedom, close-once, termination); TLC-exported exhaustive short byte strings x 11 roles built by the real code in crash-isolating child processes; outcomes judged by a TLC Trace spec; hook-recorded token traffic of real builds validated against the protocol spec",
     "level": "model_checking",
-    "level_text": "LexProto.tla is model-checked (safety + liveness under weak fairness) with more tokens than the channel holds; the variant whose error path forgets Stop must violate termination (non-vacuity). Every byte string of length <=3 (quick) / <=4 (thorough) over a 16/19-symbol syntax alphabet, plus seeded truncations/mutations of the repository corpus, is built in each of 11 roles (6 template formats, program body, whole program, imported/extended/rendered file); the outcome code of each build (result / *BuildError / other error / host panic / process crash / hang / goroutine leak / Disassemble panic) is judged by Trace_Build; the lexer/parser event logs of sampled builds are validated against LexProto by Trace_LexProto.",
+    "level_text": "LexProto.tla is model-checked (safety + liveness under weak fairness) with more tokens than the channel holds; the variant whose error path forgets Stop must violate termination (non-vacuity). Every byte string of length <=3 (quick) / <=4 (thorough) over a 16/19-symbol syntax alphabet, every start tag of the Gen_Tags grammar (name x attribute x quoting x <=2 value pieces mixing text and template code x body), plus seeded truncations/mutations of the repository corpus, is built in each of 11 roles (6 template formats, program body, whole program, imported/extended/rendered file); the outcome code of each build (result / *BuildError / other error / host panic / process crash / hang / goroutine leak / Disassemble panic) is judged by Trace_Build; the lexer/parser event logs of sampled builds are validated against LexProto by Trace_LexProto.",
     "level_note": "Trusted: TLC, Json module, the child-process driver (outcome classification by exit status and errors.As only), Go's runtime.NumGoroutine for leak detection (retried for 100 ms), a 5 s watchdog for hangs. Inputs longer than the exhaustive bound are sampled, not enumerated.",
     "design_ref": "7/C04",
 }
 FAMS = ["lexproto"]
 ALPHA16 = [123, 125, 37, 35, 34, 39, 96, 92, 60, 62, 47, 42, 32, 10, 97, 48]    # { } % # " ' ` \ < > / * space \n a 0
+TAGBASE = 5000000
 ALPHA19 = ALPHA16 + [46, 61, 40]                                                 # . = (
 
 
@@ -42,6 +43,15 @@ def run(ctx, only_ids=None):
     cases = wg / "cases.ndjson"
     if not cases.exists():
         raise Infra("Gen_Bytes exported nothing")
+    # 2b. second input space: start tags whose attribute values mix text and template code
+    npieces, nnames, nattrs = ctx.pick((6, 3, 3), (9, 5, 7))
+    rig.write_cfg(wg / "Gen_Tags.cfg", constants={"MaxPieces": 2, "NPieces": npieces, "NNames": nnames, "NAttrs": nattrs, "IdBase": TAGBASE})
+    ctx.tlc(wg, "Gen_Tags", workers=1, timeout=900)
+    if not (wg / "cases_tags.ndjson").exists():
+        raise Infra("Gen_Tags exported nothing")
+    tagcases = rig.read_ndjson(wg / "cases_tags.ndjson")
+    rig.write_ndjson(cases, rig.read_ndjson(cases) + tagcases)
+    ctx.cov["tag_shaped_inputs"] = len(tagcases)
     extra = ctx.pick(3000, 40000)
     if only_ids is not None:
         rig.write_ndjson(cases, [c for c in rig.read_ndjson(cases) if c["id"] in only_ids])
@@ -55,7 +65,7 @@ def run(ctx, only_ids=None):
     nroles = max(len(o["oc"]) for o in allobs) if allobs else 0
     ctx.cov.update(evaluations=sum(len(o["oc"]) for o in allobs), inputs=len(allobs), roles=nroles,
                    distinct_nontrivial=len({json.dumps(o["oc"]) + json.dumps(o["s"]) for o in allobs if any(c == 0 for c in o["oc"]) and any(c == 1 for c in o["oc"])}),
-                   rule=f"every byte string of length <= {maxlen} over {len(alpha)} syntax symbols (exported by TLC) + {extra} seeded corpus truncations/mutations, each built in {nroles} roles; non-trivial = builds in at least one role and is rejected in at least one other",
+                   rule=f"every byte string of length <= {maxlen} over {len(alpha)} syntax symbols and every start tag <name attr=q pieces q>body with <=2 value pieces out of {npieces} (text, show, statement, comment, MIME types), {nnames} names, {nattrs} attributes, 3 quotings, 4 bodies (both exported by TLC) + {extra} seeded corpus truncations/mutations, each built in {nroles} roles; non-trivial = builds in at least one role and is rejected in at least one other",
                    exhaustive=True, outcome_histogram=histogram(allobs),
                    samples=[{"s": rig.b2s(o["s"]), "oc": o["oc"]} for o in rig.pick_samples(allobs, 4, ctx.seed)])
     # 4. judge outcomes
